@@ -212,11 +212,13 @@ class Controller:
         running = set(running)
         ids = {self.inflight["conc"].get(f) for f in running}
         self.ev("wait", wkind="conc", return_when=return_when, running=sorted(x for x in ids if x), inflight=list(self.inflight_ids()), inflight_kind=sorted(x for x in self.inflight["conc"].values() if x), exited=list(self.exited), entered=list(self.entered),
-                ready=self.world.ready_truth(self) if self.world else None, blocking=bool(running))
+                ready=self.world.ready_truth(self) if self.world else None, blocking=bool(running) and timeout is None)
         if not running:
             return set(), set()
         by_id = {self.inflight["conc"][f]: f for f in running if f in self.inflight["conc"]}
         opts = self._options(by_id.keys(), return_when)
+        if timeout is not None:
+            opts = [()] + opts  # a wait with a timeout may come back with nothing finished (tried first)
         pick = opts[self.ch.choose(len(opts), "conc wait")]
         done = set()
         for nid in pick:
@@ -248,7 +250,7 @@ class Controller:
                 running = set(running)
                 ids = [ctrl.task_node.get(t) for t in running]
                 ctrl.ev("wait", wkind="async", return_when=return_when, running=sorted(x for x in ids if x), inflight=list(ctrl.inflight_ids()), inflight_kind=sorted(x for x in ctrl.inflight["async"].values() if x), exited=list(ctrl.exited), entered=list(ctrl.entered),
-                        ready=ctrl.world.ready_truth(ctrl) if ctrl.world else None, blocking=bool(running))
+                        ready=ctrl.world.ready_truth(ctrl) if ctrl.world else None, blocking=bool(running) and timeout is None)
                 if not running:
                     return set(), set()
                 # let the tasks reach their run_in_executor (which calls FakeExecutor.submit)
@@ -264,6 +266,8 @@ class Controller:
                 else:
                     by_id = {ctrl.task_node[t]: t for t in running}
                     opts = ctrl._options(by_id.keys(), return_when)
+                    if timeout is not None:
+                        opts = [()] + opts  # a wait with a timeout may come back with nothing finished
                     pick = opts[ctrl.ch.choose(len(opts), "async wait")]
                     done = set()
                     for nid in pick:
